@@ -10,6 +10,9 @@ ULPS = 4
 def gen_tables(rng, tier, max_h=40, max_p=80):
     H = rng.choice([0, 1, 2, 3, 5, 7, rng.randrange(5, max_h + 1)])
     P = 0 if H == 0 else rng.choice([0, 1, 2, 3, rng.randrange(0, max_p + 1)])
+    if rng.random() < 0.015:
+        H = rng.choice([1024, 4096, rng.randrange(500, 3000)])                # large, partly "round" table sizes
+        P = rng.choice([0, 4096, 8192, rng.randrange(1000, 6000)])
     L = rng.choice([500.0, 2000.0, 100.0])
     tracers = rng.choice([['LRG'], ['LRG', 'ELG'], ['LRG', 'ELG', 'QSO'], ['ELG'], ['QSO'], ['ELG', 'QSO'], ['LRG', 'QSO']])
     halos = []
